@@ -166,6 +166,8 @@ def _worker(args):
     prop, facet_name, shard, nshards, tier, seed, examples = args
     t0 = time.time()
     out = dict(prop=prop, facet=facet_name, shard=shard, failure=None, error=None)
+    if isinstance(examples, str):  # a saved regression case: replayed, bypassing Hypothesis
+        return _regress_worker(prop, examples, out, t0)
     try:
         from . import env
 
@@ -195,6 +197,53 @@ def _worker(args):
         out["error"] = "".join(traceback.format_exception(type(e), e, e.__traceback__))[
             -4000:
         ]
+    out["wall"] = time.time() - t0
+    return out
+
+
+def _regress_worker(prop, path, out, t0):
+    """Replays one saved case (regress/<ID>/*.json: shrunk inputs of defects since repaired)."""
+    try:
+        from . import env
+
+        env.bootstrap()
+        with open(path) as fh:
+            rec = json.load(fh)
+        mod = importlib.import_module(f"vf.props.{prop.lower()}")
+        facet = {f.name: f for f in mod.FACETS}.get(rec["facet"])
+        out["facet"] = "regress:" + rec["facet"]
+        stats = Stats()
+        if facet is None:  # facet renamed since the case was saved: nothing to replay
+            out["stats"] = stats.as_dict()
+            out["wall"] = time.time() - t0
+            return out
+        if facet.setup:
+            facet.setup(rec.get("shard", 0))
+        from . import findings
+        import signal
+
+        signal.signal(signal.SIGALRM, _alarm)
+        failure = None
+        try:
+            signal.alarm(facet.case_timeout)
+            try:
+                res = facet.check(rec["case"])
+            finally:
+                signal.alarm(0)
+            stats.record(rec["case"], res)
+        except Exception as exc:
+            f = _classify(prop, facet, rec["case"], exc, findings, stats)
+            if f == "harness":
+                # a saved case whose format no longer matches the generator is skipped, not an error
+                stats.extra["regress_skipped"] = 1
+            elif f is not None:
+                failure = f
+        out["stats"] = stats.as_dict()
+        out["failure"] = failure
+    except CaseTimeout:
+        out["error"] = f"INCONCLUSIVE: regression case {path} ran longer than its watchdog"
+    except BaseException as e:
+        out["error"] = "".join(traceback.format_exception(type(e), e, e.__traceback__))[-3000:]
     out["wall"] = time.time() - t0
     return out
 
@@ -339,6 +388,11 @@ def run_property(prop, tier, seed, only_facets=None, jobs=16, scale=1.0):
         examples = max(1, int(examples * scale))
         for k in range(shards):
             tasks.append((prop, f.name, k, shards, tier, seed, examples))
+    if not only_facets:
+        import glob
+
+        for k, path in enumerate(sorted(glob.glob(os.path.join(HERE, "regress", prop, "*.json")))):
+            tasks.insert(0, (prop, "regress", k, 1, tier, seed, path))
     # longest facets first is unknown; interleave facets so slow ones start early
     ctx = mp.get_context("spawn")
     results = []
@@ -397,7 +451,7 @@ def finish(prop, mod, tier, seed, results, wall, only_facets):
     for name, pf in per_facet.items():
         pf["distinct_nontrivial"] = len(pf["distinct_nontrivial"])
         pf["classes"] = dict(pf["classes"])
-        pf["rule"] = facets[name].rule
+        pf["rule"] = facets[name].rule if name in facets else "saved shrunk inputs of defects since repaired (regress/), replayed without Hypothesis"
 
     rc = 0
     lines = []
@@ -444,7 +498,7 @@ def finish(prop, mod, tier, seed, results, wall, only_facets):
                 rule=getattr(mod, "RULE", "")
                 + " Distinct = sha1 of the canonical JSON of the generated case, union over "
                 "shards; non-trivial per facet: "
-                + "; ".join(f"{n}: {facets[n].rule}" for n in per_facet),
+                + "; ".join(f"{n}: {facets[n].rule}" for n in per_facet if n in facets),
                 samples=samples[:24],
                 per_facet=per_facet,
                 known_findings_excluded={k: dict(cases=n, example=known_example.get(k)) for k, n in known.items()},
